@@ -138,10 +138,10 @@ Lemma r_example :
 Proof.
   split; [exact r_cfg_ok|]. split; [|split; [reflexivity|]].
   - unfold history_ok. cbn [hist_ok]. split; [exact (w_adm _)|]. split; [|split; [|exact I]].
-    + intros _. split; [reflexivity|]. split.
+    + intros _. split.
       * cbn [All2 r_cfg r_g c_vars]. split; [|exact I]. unfold bound_ok, w_var.
         cbn [b_upper b_lower b_nx v_width]. split; [simpl; lra|lia].
-      * assert (Hs : s_all (spec_event r_cfg (mkS [] [] (c_geom0 r_cfg)) (EStep w_i1)) = [mkHill 2%Z (1 * (1 * 1)) [[3/2]]])
+      * left. split; [reflexivity|]. assert (Hs : s_all (spec_event r_cfg (mkS [] [] (c_geom0 r_cfg)) (EStep w_i1)) = [mkHill 2%Z (1 * (1 * 1)) [[3/2]]])
           by reflexivity.
         rewrite Hs. intros h [<-|[]]. cbn [All3 r_cfg r_g c_vars h_c]. split; [|exact I].
         unfold clear_var, w_var. cbn [v_expand]. intros H. discriminate H.
@@ -164,4 +164,51 @@ Proof.
   split; [exact w_cfg_ok|]. split; [|repeat split; try reflexivity].
   - apply plain_history_ok. apply Forall_cons; [exact (w_adm _)|apply Forall_cons; [exact (w_adm _)|apply Forall_nil]].
   - unfold eb_factor, e_cfg, w_i1. cbn [c_eb c_eb_equil c_eb_target i_it]. simpl. lra.
+Qed.
+
+(* expandBoundaries without keepHills, a reload, and a rebinning restart from the grids of the state onto the
+   boundaries the grids have reached *)
+Definition n_var : varR := mkVar KScalar false 1 1 1 false true false false.
+Definition n_cfg : cfgR := mkCfg [n_var] [mkBound 0 8 8%Z] 1 2 1%Z 1%Z true false false 1 1 false false 0%Z (fun _ => 1).
+Definition n_g : list boundR := s_geom (spec_run n_cfg [EStep w_i1; EReload]).
+
+Lemma n_cfg_ok : cfg_ok n_cfg.
+Proof.
+  unfold cfg_ok. split; [|split].
+  - apply Forall_cons; [|apply Forall_nil]. unfold var_ok, n_var; cbn [v_sigma v_width]. lra.
+  - intros _. apply Forall_cons; [|apply Forall_nil]. unfold n_var; cbn [v_sigma v_width c_hill_width n_cfg]. lra.
+  - intros _. split.
+    + cbn [All2 n_cfg c_vars c_geom0]. split; [|exact I]. unfold bound_ok, n_var.
+      cbn [b_upper b_lower b_nx v_width]. split; [simpl; lra|lia].
+    + apply Forall_cons; [|apply Forall_nil]. unfold gvar_ok, n_var; cbn [v_kind v_expand v_periodic v_gperiodic].
+      split; [reflexivity|intros _; split; reflexivity].
+Qed.
+
+Lemma n_adm g x : adm n_cfg [g] [[x]].
+Proof.
+  intros _. cbn [All3 n_cfg c_vars]. split; [|exact I].
+  unfold adm_var, n_var; cbn [v_periodic v_gperiodic v_hard_lo v_hard_up].
+  split; [intros H; discriminate H|split; intros H; discriminate H].
+Qed.
+
+Lemma n_example :
+  cfg_ok n_cfg /\ history_ok n_cfg [EStep w_i1; EReload; ERestart (Some n_g); EStep w_i1] /\
+  c_keep n_cfg = false /\ existsb (@v_expand R) (c_vars n_cfg) = true.
+Proof.
+  split; [exact n_cfg_ok|]. split; [|split; reflexivity].
+  assert (H0 : history_ok n_cfg [EStep w_i1; EReload]).
+  { apply plain_history_ok. apply Forall_cons; [exact (n_adm _ _)|apply Forall_cons; [exact I|apply Forall_nil]]. }
+  destruct (run_inv n_cfg _ n_cfg_ok H0) as [HI Hb].
+  pose proof (geometry_grows n_cfg _ n_cfg_ok H0 eq_refl) as Hgr. fold n_g in Hgr.
+  assert (Hlen : length n_g = 1%nat).
+  { destruct (All3_length _ _ _ _ Hgr) as [_ Hl]. symmetry. exact Hl. }
+  destruct n_g as [|b [|b' r]] eqn:En; try discriminate Hlen.
+  change (history_ok n_cfg ([EStep w_i1; EReload] ++ [ERestart (Some [b]); EStep w_i1])).
+  unfold history_ok. apply hist_ok_app. split; [exact H0|].
+  change (fold_left (spec_event n_cfg) [EStep w_i1; EReload] (mkS [] [] (c_geom0 n_cfg))) with (spec_run n_cfg [EStep w_i1; EReload]).
+  cbn [hist_ok]. split; [|split; [|exact I]].
+  - intros _. split.
+    + apply (All2_bound_gstep (c_vars n_cfg) _ _ (Hb eq_refl)). exact Hgr.
+    + right. split; [reflexivity|]. fold n_g. rewrite En. apply All3_refl_gstep. reflexivity.
+  - apply n_adm.
 Qed.
